@@ -148,13 +148,13 @@ func drawStoreOp(existing []string, allowRestart bool) storeOp {
 			op.kind, op.extra = "blob-mismatch", d("op-blob-which", 64)
 		}
 	case k < 6:
-		op.kind, op.name, op.gguf, op.extra = "create", drawOpName(), d("op-gguf", 4), d("op-variant", 8)
+		op.kind, op.name, op.gguf, op.extra = "create", drawOpName(), d("op-gguf", 4), d("op-variant", 10)
 		op.dashDigest = d("op-dash-digest", 4) == 0
 		if d("op-dst-existing", 4) == 0 {
 			op.name = pickExisting()
 		}
 	case k < 9:
-		op.kind, op.name, op.from, op.extra = "create-from", drawOpName(), pickExisting(), d("op-variant", 8)
+		op.kind, op.name, op.from, op.extra = "create-from", drawOpName(), pickExisting(), d("op-variant", 10)
 	case k < 12:
 		op.kind, op.name, op.from = "copy", drawOpName(), pickExisting()
 		if d("op-dst-existing", 4) == 0 {
@@ -184,6 +184,12 @@ func createVariant(req map[string]any, v int) {
 			req["template"] = lastShownTemplate
 			verifsim.Probe("create_with_shown_template")
 		}
+	case 8:
+		// the same bytes as variant one's system prompt, under another media type
+		req["license"] = "You are variant one."
+	case 9:
+		// the same bytes as variant four's license, as a system prompt
+		req["system"] = "MIT-ish license text"
 	case 1:
 		req["system"] = "You are variant one."
 	case 2:
@@ -389,8 +395,13 @@ func (w *storeWorld) checkStore(ctx context.Context, prop string, op storeOp, be
 			}
 		}
 	}
-	// start-up pruning leaves exactly the blobs that some manifest references
-	if op.kind == "restart" && len(after.unread) == 0 {
+	// start-up pruning leaves exactly the blobs that some manifest references. (No operation of
+	// this world is interrupted: a manifest file that cannot be read - which makes the server skip
+	// pruning altogether - is itself the work of an operation, and what it leaves behind counts.)
+	if op.kind == "restart" {
+		if len(after.unread) > 0 {
+			verifsim.Probe("restart_with_unreadable_manifest")
+		}
 		ref := after.referenced()
 		var orphan []string
 		for f := range after.blobs {
